@@ -18,9 +18,7 @@ def plans_for(run, kind, vals, maxlen):
 
 
 def execute(run, plans):
-    flat = [c for p in plans for c in p]
-    evs = run_driver(run, "queue", flat)
-    return split_segments(evs)
+    return run_plans(run, "queue", plans)
 
 
 def check(run):
@@ -95,6 +93,7 @@ def check(run):
     segs = execute(run, plans)
     if len(segs) != len(plans):
         raise Inconclusive("driver returned %d segments for %d plans" % (len(segs), len(plans)))
+    plans, segs = drop_crashed(plans, segs)
     conf = conformance(plans, segs, ["ret", "ok"])
     validate(run, "queue", "QueueAbsTrace", {}, segs, CLAUSES, plans=plans)
     run.cov.update(tour=tours, conformance=conf, exhaustive=all(t["edges_covered"] == t["edges_total"] for t in tours),
@@ -108,6 +107,6 @@ def check(run):
 
 
 def replay(run, rp):
-    segs = execute(run, [rp["plan"]])
+    segs = [sg for sg in execute(run, [rp["plan"]]) if sg is not None]
     validate(run, "queue", "QueueAbsTrace", {}, segs, CLAUSES, plans=[rp["plan"]])
     return finish(run, reexec=lambda rej: execute(run, [rej["plan"]])[0])
